@@ -588,6 +588,7 @@ def batches(ctx, cases, size=1500, oracle=True):
 def correspondence(ctx):
     rng = ctx.rng
     thorough = ctx.tier == "thorough" or ctx.extra.get("drift")
+    full = ctx.tier == "thorough"          # drifted anchors in the quick tier: an intermediate size (~3 min)
     ctx.rule = ("combination cases: a vm with 1..3 images, each carrying a subset of a 3-name alphabet (all assignments, "
                 "lists in shuffled order) — qcow2vt: names as vm snapshots in generated `qemu-img snapshot -l` listings with "
                 "a 4th subset as 0 B noise; ramfile: per-image lists + `.state` files of a 4th subset; ramfile over "
@@ -611,7 +612,7 @@ def correspondence(ctx):
              ram_case(rng, 2, [["launch"], ["launch"]], ["launch"]), ram_case(rng, 2, [[], ["launch"]], ["launch"])]
     run_cases(ctx, fixed)
     # exhaustive part
-    reps = 6 if thorough else 1
+    reps = 6 if full else 3 if thorough else 1
     cases = []
     n_assign = 0
     for n, sets, fourth in exhaustive_assignments():
@@ -628,7 +629,8 @@ def correspondence(ctx):
     # character classes
     batches(ctx, [{"kind": "cls", "code": i} for i in range(128)])
     # listings
-    n_list, n_mut, n_soup, n_ext = (60000, 20000, 10000, 4000) if thorough else (2000, 1200, 600, 300)
+    n_list, n_mut, n_soup, n_ext = ((60000, 20000, 10000, 4000) if full else (30000, 12000, 6000, 2000) if thorough
+                                    else (2000, 1200, 600, 300))
     cases = []
     for i in range(n_list):
         cases.append({"kind": "qcow", "lines": gen_listing(rng), "trailing_newline": i % 2 == 0})
